@@ -61,12 +61,12 @@ func checkC01(ctx *Ctx) *Result {
 				if rp.StatusTag == successStatusTag && len(acao) == 0 {
 					good, detail = false, "a preflight succeeds without Access-Control-Allow-Origin"
 				}
-				if rp.StatusTag == successStatusTag && !(rp.Is(aParseOK) && (rp.Is(aContains) || (rp.Is(aEmpty) && rp.Not(aCred)))) {
+				if rp.StatusTag == successStatusTag && !(rp.Is(aParseOK) && (rp.Is(aContains) || allowAllPath(ctx, rp))) {
 					good, detail = false, "a preflight succeeds on a path that has not established an allowed origin"
 				}
 			} else if !rp.Is(aPNANoCors) {
 				switch {
-				case rp.Is(aEmpty) && rp.Not(aCred):
+				case allowAllPath(ctx, rp):
 					if !isConst {
 						good, detail = false, "allow-all configuration but the actual response lacks ACAO: *"
 					}
@@ -574,7 +574,12 @@ func printerTable(ctx *Ctx, r *Result, rule string, fn *ssa.Function, K, W strin
 			return false
 		})
 		h := host
-		switch pa.Val(colon) {
+		cv := pa.Val(colon)
+		if cv == 0 {
+			// "contains a colon" may equally be asked from the right
+			cv = pa.Val("bin:<(call:strings.LastIndexByte(" + host + ", 58), 0)")
+		}
+		switch cv {
 		case -1:
 			h = `bin:+(bin:+("[", ` + host + `), "]")`
 		case 0:
@@ -1036,10 +1041,10 @@ func commonSuffixRule(ctx *Ctx, r *Result) {
 		ek := E.Key()
 		// which argument is the shorter one on this path
 		short, long := A, B
-		switch pa.Val("bin:<(len:builtin.len(" + B + "), len:builtin.len(" + A + "))") {
-		case 1:
+		switch shorterArg(pa, A, B) {
+		case B:
 			short, long = B, A
-		case 0:
+		case "":
 			good, detail = false, "the path does not compare the lengths of the two arguments"
 		}
 		aligned := "slice(" + long + ", bin:-(len:builtin.len(" + long + "), len:builtin.len(" + short + ")), _, _)"
@@ -1103,7 +1108,7 @@ func commonSuffixRule(ctx *Ctx, r *Result) {
 			continue
 		}
 		short := A
-		if pa.Val("bin:<(len:builtin.len("+B+"), len:builtin.len("+A+"))") == 1 {
+		if shorterArg(pa, A, B) == B {
 			short = B
 		}
 		okInit := false
@@ -1237,4 +1242,34 @@ func shapeSorted(v *Term, beforeKey string, searchedField map[string]bool) bool 
 		return s.Key() == beforeKey && i.Key() == "call:slices.BinarySearch("+s.Key()+", "+x.Key()+")#0"
 	}
 	return false
+}
+
+// allowAllPath: the path is taken by allow-all configurations only: the
+// tree is empty and credentialed access is excluded — by an atom of the path
+// or, once CI-1 (allow-all ⇒ not credentialed) is established, by the
+// configuration invariant.
+func allowAllPath(ctx *Ctx, rp *ReqPath) bool {
+	if !rp.Is(aEmpty) {
+		return false
+	}
+	return rp.Not(aCred) || (!rp.Is(aCred) && ctx.CI1() == "")
+}
+
+// shorterArg: which of the two string arguments the path knows to be no
+// longer than the other ("" when it does not compare their lengths).
+func shorterArg(pa *Path, A, B string) string {
+	la, lb := "len:builtin.len("+A+")", "len:builtin.len("+B+")"
+	switch pa.Val("bin:<(" + lb + ", " + la + ")") {
+	case 1:
+		return B
+	case -1:
+		return A // len(A) ≤ len(B)
+	}
+	switch pa.Val("bin:<(" + la + ", " + lb + ")") {
+	case 1:
+		return A
+	case -1:
+		return B // len(B) ≤ len(A)
+	}
+	return ""
 }
